@@ -111,7 +111,7 @@ var _ rpc.Resources
 //@   assert[C02] ref.sub.Unsend#1: ref.state == gcStateUnsend
 //@   ensures[C08] forall x *Subscription :: x.direct == old(x.direct)
 //@   assigns Subscription.direct, Subscription.indirect, Subscription.indirectsent, Subscription.state, Subscription.queueFlag, Subscription.readyCallbacks,
-//@       Subscription.eventQueue, Subscription.throttle, Subscription.resourceSub, Subscription.refs, elems(c.subs), pkgstate(rescache), cachecontainers(), alloc()
+//@       Subscription.eventQueue, Subscription.throttle, Subscription.reaccessThrottle, Subscription.resourceSub, Subscription.refs, elems(c.subs), pkgstate(rescache), cachecontainers(), alloc()
 //@   safety[C15]
 //@   loop 1 let R = refs
 //@   loop 1 invariant forall x *Subscription :: x.direct == old(x.direct)
@@ -200,7 +200,7 @@ var _ rpc.Resources
 //@   ensures !tryDelete ==> (forall e *rescache.EventSubscription :: e.queue == old(e.queue))
 //@   ensures !tryDelete ==> (forall m map[string]*Subscription, r string :: has(m, r) == old(has(m, r)) && m[r] == old(m[r]))
 //@   assigns s.direct, s.indirect, s.indirectsent, Subscription.state, Subscription.indirectsent, Subscription.indirect, Subscription.queueFlag, Subscription.readyCallbacks,
-//@       Subscription.eventQueue, Subscription.throttle, Subscription.resourceSub, Subscription.refs, elems(c.subs), pkgstate(rescache), cachecontainers()
+//@       Subscription.eventQueue, Subscription.throttle, Subscription.reaccessThrottle, Subscription.resourceSub, Subscription.refs, elems(c.subs), pkgstate(rescache), cachecontainers()
 //@   safety[C15]
 
 // UnsubscribeByRID succeeds exactly when the connection is live, the rid is subscribed and its
@@ -836,7 +836,7 @@ var _ rpc.Resources
 //@   ensures[C11] forall e *rescache.EventSubscription :: e.queue == old(e.queue)
 //@   ensures[C11] callcount("ResourceSubscription.Unsubscribe") == old(callcount("ResourceSubscription.Unsubscribe"))
 //@   assigns Subscription.direct, Subscription.indirect, Subscription.indirectsent, Subscription.state, Subscription.queueFlag, Subscription.readyCallbacks,
-//@       Subscription.eventQueue, Subscription.throttle, Subscription.resourceSub, Subscription.refs, elems(s.c.(*wsConn).subs), pkgstate(rescache), cachecontainers()
+//@       Subscription.eventQueue, Subscription.throttle, Subscription.reaccessThrottle, Subscription.resourceSub, Subscription.refs, elems(s.c.(*wsConn).subs), pkgstate(rescache), cachecontainers()
 //@   assert[C02] s.c.Unsubscribe#1: !arg1 && arg2 == sent && arg3 == 1 && !arg4
 //@   safety[C15]
 //@   loop 1 invariant s.refs == old(s.refs) && (forall r string :: has(s.refs, r) ==> s.refs[r] != nil && s.refs[r].sub != nil)
@@ -864,7 +864,7 @@ var _ rpc.Resources
 //@   ensures[C11] forall m map[string]*Subscription, r string :: has(m, r) == old(has(m, r)) && m[r] == old(m[r])
 //@   ensures[C08,C11] forall x *Subscription :: x.direct == old(x.direct)
 //@   assigns Subscription.direct, Subscription.indirect, Subscription.indirectsent, Subscription.state, Subscription.queueFlag, Subscription.readyCallbacks,
-//@       Subscription.eventQueue, Subscription.throttle, Subscription.resourceSub, Subscription.refs, elems(s.c.(*wsConn).subs), pkgstate(rescache), cachecontainers()
+//@       Subscription.eventQueue, Subscription.throttle, Subscription.reaccessThrottle, Subscription.resourceSub, Subscription.refs, elems(s.c.(*wsConn).subs), pkgstate(rescache), cachecontainers()
 // (references are given back with the subscription's sent state as it was before the disposal:
 // a resource that was sent takes one sent-parent count from each referenced resource)
 //@   assert[C02] s.unsubscribeRefs#1: arg0 == (old(s.state) == stateSent)
@@ -880,7 +880,7 @@ var _ rpc.Resources
 //@   ensures[C11] !old(c.disposing) ==> c.subs == nil && callcount("RemoveConn") == old(callcount("RemoveConn")) + 1
 //@   ensures[C11] !old(c.disposing) ==> (forall r string :: old(has(c.subs, r)) ==> old(c.subs[r]).state == stateDisposed && old(c.subs[r]).resourceSub == nil)
 //@   assigns c.disposing, c.subs, elemsof(map[string]*wsConn), Subscription.direct, Subscription.indirect, Subscription.indirectsent, Subscription.state, Subscription.queueFlag, Subscription.readyCallbacks,
-//@       Subscription.eventQueue, Subscription.throttle, Subscription.resourceSub, Subscription.refs, elemsof(map[string]*Subscription), elemsof(map[string]rescache.Conn), pkgstate(rescache), cachecontainers()
+//@       Subscription.eventQueue, Subscription.throttle, Subscription.reaccessThrottle, Subscription.resourceSub, Subscription.refs, elemsof(map[string]*Subscription), elemsof(map[string]rescache.Conn), pkgstate(rescache), cachecontainers()
 //@   safety[C15]
 //@   loop 1 invariant c.disposing && c.subs == nil && callcount("RemoveConn") == old(callcount("RemoveConn")) + 1 && callcount("Dispose") == old(callcount("Dispose")) + iters1
 //@   loop 1 invariant subs == old(c.subs) && (forall r string :: has(subs, r) == old(has(c.subs, r)) && subs[r] == old(c.subs[r]))
@@ -1115,7 +1115,7 @@ var _ rpc.Resources
 //@   ensures[C02] old(s.refs[rid].count) == 1 && !old(s.c.(*wsConn).disposing) ==> callcount("removeCount") == old(callcount("removeCount")) + 1
 //@   assert[C02] s.c.Unsubscribe#1: arg0 == old(s.refs[rid].sub) && !arg1 && arg2 == (old(s.state) == stateSent) && arg3 == 1 && arg4
 //@   assigns reference.count, elemsof(map[string]*reference), Subscription.direct, Subscription.state, Subscription.indirectsent, Subscription.indirect, Subscription.queueFlag, Subscription.readyCallbacks,
-//@       Subscription.eventQueue, Subscription.throttle, Subscription.resourceSub, Subscription.refs, elems(s.c.(*wsConn).subs), pkgstate(rescache), cachecontainers()
+//@       Subscription.eventQueue, Subscription.throttle, Subscription.reaccessThrottle, Subscription.resourceSub, Subscription.refs, elems(s.c.(*wsConn).subs), pkgstate(rescache), cachecontainers()
 //@   safety[C15]
 
 // a subscription created for a connection keeps pointing at it
@@ -1311,7 +1311,7 @@ var _ rpc.Resources
 //@   ensures[C06,C08] old(s.direct) > 0 && old(s.c.(*wsConn).ws) != nil ==> wsframes == old(wsframes) + 1
 //@   ensures[C06,C08] old(s.direct) <= 0 ==> wsframes == old(wsframes) && (forall x *Subscription :: x.direct == old(x.direct))
 //@   assigns wsframes, Subscription.direct, Subscription.state, Subscription.indirectsent, Subscription.indirect, Subscription.queueFlag, Subscription.readyCallbacks,
-//@       Subscription.eventQueue, Subscription.throttle, Subscription.resourceSub, Subscription.refs, elems(s.c.(*wsConn).subs), pkgstate(rescache), cachecontainers()
+//@       Subscription.eventQueue, Subscription.throttle, Subscription.reaccessThrottle, Subscription.resourceSub, Subscription.refs, elems(s.c.(*wsConn).subs), pkgstate(rescache), cachecontainers()
 //@   assert[C10] rpc.NewEvent#1: arg0 == s.rid && arg1 == "unsubscribe"
 //@   safety[C15]
 
@@ -1323,7 +1323,7 @@ var _ rpc.Resources
 //@   ensures[C06] old(a.Error == nil && a.Get) ==> wsframes == old(wsframes) && (forall x *Subscription :: x.direct == old(x.direct))
 //@   ensures[C06] old(s.direct) <= 0 ==> wsframes == old(wsframes) && (forall x *Subscription :: x.direct == old(x.direct))
 //@   assigns wsframes, Subscription.direct, Subscription.state, Subscription.indirectsent, Subscription.indirect, Subscription.queueFlag, Subscription.readyCallbacks,
-//@       Subscription.eventQueue, Subscription.throttle, Subscription.resourceSub, Subscription.refs, elems(s.c.(*wsConn).subs), pkgstate(rescache), cachecontainers()
+//@       Subscription.eventQueue, Subscription.throttle, Subscription.reaccessThrottle, Subscription.resourceSub, Subscription.refs, elems(s.c.(*wsConn).subs), pkgstate(rescache), cachecontainers()
 //@   safety[C15]
 
 // handleReaccess: the cached verdict is dropped; with direct subscriptions the event queue is
@@ -1500,10 +1500,12 @@ var _ rpc.Resources
 // handled before any held event; a held event is processed only while no hold reason is set.
 //@ func (*Subscription).unqueueEvents
 //@   requires s != nil && s.c != nil && predConnOK(s.c.(*wsConn))
+//@   assumes s.reaccessThrottle != nil ==> rescache.predThrottleInv(s.reaccessThrottle)
 //@   assumes predCountsOK() && (forall k int :: 0 <= k && k < len(s.eventQueue) ==> s.eventQueue[k] != nil)
 //@   ensures[C03,C06] old(s.queueFlag & ^reason) != 0 ==> s.queueFlag == old(s.queueFlag) & ^reason && s.eventQueue == old(s.eventQueue) &&
 //@       callcount("processEvent") == old(callcount("processEvent")) && callcount("handleReaccess") == old(callcount("handleReaccess"))
 //@   assert[C06] s.handleReaccess#1: s.queueFlag == 0 && callcount("processEvent") == old(callcount("processEvent"))
+//@   assert[C19] s.handleReaccess#1: arg0 == old(s.reaccessThrottle) && s.reaccessThrottle == nil
 //@   assert[C03,C06] s.processEvent#1: s.queueFlag == 0
 //@   safety[C15]
 //@   loop 1 invariant s.queueFlag == 0
@@ -1534,6 +1536,9 @@ var _ rpc.Resources
 //@   ensures[C06] old(s.state) == stateDisposed ==> s.access == old(s.access) && s.flags == old(s.flags) && s.queueFlag == old(s.queueFlag)
 //@   ensures[C06] old(s.state) != stateDisposed && old(s.queueFlag) != 0 ==> s.flags == old(s.flags) | flagReaccess && s.queueFlag == old(s.queueFlag)
 //@   ensures[C04,C05,C06] old(s.state) != stateDisposed ==> s.access == nil
+// (a check deferred from a system reset stays under that reset's throttle)
+//@   ensures[C19] old(s.state) != stateDisposed && old(s.queueFlag) != 0 && t != nil ==> s.reaccessThrottle == t
+//@   ensures[C19] old(s.state) != stateDisposed && old(s.queueFlag) != 0 && t == nil ==> s.reaccessThrottle == old(s.reaccessThrottle)
 //@   ensures[C06] predSubsStable()
 //@   ensures[C06] forall x *Subscription :: x != s ==> x.access == old(x.access) && x.flags == old(x.flags)
 //@   safety[C15]
